@@ -558,6 +558,80 @@ theorem round_error_bound_rendered (items : List Tok) (value : Str) (up : Bool) 
   refine ⟨_, rfl, ?_⟩
   rw [rendered_digits _ _ _ hph hpl, digitsOf_append, percents_no_digits, List.append_nil]
 
+/-- round_error_bound for the rendered text of THOUSANDS-SEPARATED codes (round 5, second wave): the
+same class as `round_error_bound_rendered` with a ThousandsSeparator token in the section.  The only
+extra hypothesis is about the number layer (a parameter): its `%.{d}f` text has at most one decimal
+point — proved for the exact layer below (`exact_layer_one_point`).  Then the separators and the
+split at the point (`comma_sep_digits`) change no digit: the rendered digits and point are still those
+of `Sprintf("%0w.{d}f")`. -/
+theorem round_error_bound_rendered_comma (items : List Tok) (value : Str) (up : Bool) (n : NumIn)
+    (hph : items.any isPlaceholder = true) (hpl : PlainLits items)
+    (hun : hasUnmodelled items = false)
+    (hsci : (getConf items).useSci = false) (hcomma : (getConf items).useCommaSep = true)
+    (hfrac : (getConf items).useFraction = false)
+    (hbig : ¬ (n.isNum = true ∧ n.precision > bigPrecision ∧
+        (partLen (getConf items) n.absShort).1 + (partLen (getConf items) n.absShort).2 > bigLen))
+    (hone : (n.fixed (getConf items).percent (partLen (getConf items) n.absShort).2).count '.' ≤ 1) :
+    ∃ s, numberHandler items value up n = .ok s ∧
+      digitsOf s = digitsOf (padLeft
+        ((partLen (getConf items) n.absShort).1 + (partLen (getConf items) n.absShort).2 +
+          (if (partLen (getConf items) n.absShort).2 > 0 then 1 else 0))
+        (n.fixed (getConf items).percent (partLen (getConf items) n.absShort).2)) := by
+  unfold numberHandler
+  simp only [hun, hfrac, Bool.false_eq_true, if_false]
+  have hb : ¬ (n.isNum = true ∧ n.precision > bigPrecision ∧
+      (partLen (getConf items) n.absShort).1 + (partLen (getConf items) n.absShort).2 > bigLen ∧ (!(getConf items).useSci) = true) := by
+    intro h; exact hbig ⟨h.1, h.2.1, h.2.2.1⟩
+  simp only [hsci, hcomma, Bool.false_eq_true, if_false, if_true]
+  rw [hsci] at hb
+  rw [if_neg hb]
+  refine ⟨_, rfl, ?_⟩
+  rw [rendered_digits _ _ _ hph hpl, digitsOf_append, percents_no_digits, List.append_nil]
+  exact comma_sep_digits _ (by rw [padLeft_count_point]; exact hone)
+
+/-- the layer hypothesis of `round_error_bound_rendered_comma` holds for the exact layer, for every
+value, percent count and number of decimals (zero padding adds no point either) -/
+theorem exact_layer_one_point (x : Exact.Dec) (pct d w : Nat) :
+    ((Exact.numIn x).fixed pct d).count '.' ≤ 1 ∧
+    (padLeft w ((Exact.numIn x).fixed pct d)).count '.' ≤ 1 := by
+  have h : ((Exact.numIn x).fixed pct d).count '.' ≤ 1 := renderFixed_one_point _ d
+  exact ⟨h, by rw [padLeft_count_point]; exact h⟩
+
+/-- … so with the exact layer the thousands-separated rendering carries exactly the digits of the
+integer `k` of `round_error_bound_exact` printed with `d` decimals: no layer hypothesis left -/
+theorem round_error_bound_rendered_comma_exact (items : List Tok) (value : Str) (up : Bool)
+    (x : Exact.Dec)
+    (hph : items.any isPlaceholder = true) (hpl : PlainLits items)
+    (hun : hasUnmodelled items = false)
+    (hsci : (getConf items).useSci = false) (hcomma : (getConf items).useCommaSep = true)
+    (hfrac : (getConf items).useFraction = false)
+    (hbig : ¬ ((Exact.numIn x).isNum = true ∧ (Exact.numIn x).precision > bigPrecision ∧
+        (partLen (getConf items) (Exact.numIn x).absShort).1 +
+          (partLen (getConf items) (Exact.numIn x).absShort).2 > bigLen)) :
+    ∃ s, numberHandler items value up (Exact.numIn x) = .ok s ∧
+      digitsOf s = digitsOf (padLeft
+        ((partLen (getConf items) (Exact.numIn x).absShort).1 +
+          (partLen (getConf items) (Exact.numIn x).absShort).2 +
+          (if (partLen (getConf items) (Exact.numIn x).absShort).2 > 0 then 1 else 0))
+        (Exact.renderFixed
+          (Exact.scaledRound x (getConf items).percent (partLen (getConf items) (Exact.numIn x).absShort).2)
+          (partLen (getConf items) (Exact.numIn x).absShort).2)) :=
+  round_error_bound_rendered_comma items value up (Exact.numIn x) hph hpl hun hsci hcomma hfrac hbig
+    (exact_layer_one_point x _ _ 0).1
+
+/-- non-vacuity of the token-list hypotheses: `#,##0.00` satisfies them -/
+theorem comma_code_witness :
+    let items : List Tok := [⟨"HashPlaceHolder", ['#'], []⟩, ⟨"ThousandsSeparator", [','], []⟩,
+      ⟨"HashPlaceHolder", bs "##", []⟩, ⟨"ZeroPlaceHolder", ['0'], []⟩, ⟨"DecimalPoint", ['.'], []⟩,
+      ⟨"ZeroPlaceHolder", bs "00", []⟩]
+    items.any isPlaceholder = true ∧ PlainLits items ∧ hasUnmodelled items = false ∧
+    (getConf items).useSci = false ∧ (getConf items).useCommaSep = true ∧
+    (getConf items).useFraction = false := by
+  refine ⟨by decide, ?_, by decide, by decide, by decide, by decide⟩
+  intro t ht
+  simp only [List.mem_cons, List.not_mem_nil, or_false] at ht
+  rcases ht with h | h | h | h | h | h <;> subst h <;> exact ⟨by decide, by decide⟩
+
 /-- the complementary class: on the big-number path (no exponent token) the digits and the point of
 the final string are those of printBigNumber's rounded decimal string -/
 theorem bignumber_rendered (items : List Tok) (value : Str) (up : Bool) (n : NumIn)
